@@ -56,57 +56,76 @@ def check_score_kernel(db, ctx, path, e_out, e_tab, want_op):
     if not (norm(lo) == ('k', 0) and is_param_call(hi, 'DenseMatrix::rows', 1)):
         probs.append(f'motif loop runs over {X.show(lo, 30)}..{X.show(hi, 60)}, expected 0..pssm.rows()')
     H0 = Lr.parent
-    # pointers
-    ptrs = {l: v for l, v in Lj.carried.items() if isinstance(v, Ptr)}
-    seqp = [l for l, v in ptrs.items() if 'StripedSequence::matrix' in repr(v.base)]
-    tabp = [l for l, v in ptrs.items() if l not in seqp]
-    if len(seqp) != 1 or len(tabp) != 1:
-        ctx.fail('R1.1', f, 'pointers', f'reason=unrecognised-shape: sequence pointers {seqp}, table pointers {tabp}')
+    # addresses: every vector access is put in the form  row start of a matrix + (whole rows per iteration of each loop) + offset inside the row,
+    # whether the pointer is bumped once per iteration or recomputed as `base.add(j * stride)` (kernels.root_of)
+    S_SEQ = 'lightmotif::dense::DenseMatrix::stride(lightmotif::seq::StripedSequence::matrix(arg2))'
+    S_TAB = 'lightmotif::dense::DenseMatrix::stride(arg1)'
+    S_OUT = 'lightmotif::dense::DenseMatrix::stride(lightmotif::scores::StripedScores::matrix_mut(arg4))'
+    info = {}
+    for a in E.acc:
+        if not isinstance(a.ptr, Ptr):
+            continue
+        root, steps, off = K.root_of(E, a.ptr)
+        if root is None:
+            continue
+        cls = K.classify(root.base)
+        if cls[0] != 'ROW':
+            continue
+        inrow = {k: v for k, v in off.items() if 'DenseMatrix::stride' not in k}
+        extra_rows = {k: v for k, v in off.items() if 'DenseMatrix::stride' in k}
+        info[a.ptr.key()] = {'acc': a, 'matrix': norm(cls[1]) if isinstance(cls[1], tuple) else cls[1], 'row0': cls[2], 'steps': [(H, st) for H, _, st in steps],
+                             'inrow': inrow, 'extra_rows': extra_rows}
+
+    def is_seq(i_):
+        return is_param_call(i_['matrix'], 'StripedSequence::matrix', 2)
+
+    def is_tab(i_):
+        return i_['matrix'] == ('p', 1)
+
+    def is_out(i_):
+        return is_param_call(i_['matrix'], 'StripedScores::matrix_mut', 4)
+    seq_keys = [k for k, i_ in info.items() if is_seq(i_) and i_['acc'].kind == 'load']
+    tab_keys = [k for k, i_ in info.items() if is_tab(i_) and i_['acc'].kind in ('load', 'gather')]
+    if not seq_keys or not tab_keys:
+        ctx.fail('R1.1', f, 'pointers', f'reason=unrecognised-shape: sequence loads {len(seq_keys)}, table loads {len(tab_keys)} through row pointers')
         return 0
-    seqp, tabp = seqp[0], tabp[0]
-    si, ti = ptrs[seqp], ptrs[tabp]
-    # seq pointer init: seq.matrix()[i] (+ D)
-    sb = si.base
-    ok_seq = isinstance(sb, tuple) and sb[0] == 'slice' and sb[1][0] == 'call' and sb[1][1].endswith('::index') and is_param_call(sb[1][2][0], 'StripedSequence::matrix', 2) \
-        and LN.is_elem(sb[1][2][1], Hr)
-    if not ok_seq:
-        probs.append(f'sequence pointer starts at {LN.show_base(sb)}: expected seq.matrix()[i] with i the element of the `rows` range (not its position)')
-    tb = ti.base
-    ok_tab = isinstance(tb, tuple) and tb[0] == 'slice' and tb[1][0] == 'call' and tb[1][1].endswith('::index') and norm(tb[1][2][0]) == ('p', 1) and norm(tb[1][2][1]) == ('k', 0) and not ti.off
-    if not ok_tab:
-        probs.append(f'table pointer starts at {LN.show_base(tb)} + {X.lin_str(ti.off)}: expected pssm[0]')
-    su, tu = K.ptr_update(E, Hj, seqp), K.ptr_update(E, Hj, tabp)
-    want_su = {'lightmotif::dense::DenseMatrix::stride(lightmotif::seq::StripedSequence::matrix(arg2))': Fraction(1)}
-    want_tu = {'lightmotif::dense::DenseMatrix::stride(arg1)': Fraction(e_tab)}
-    if su != want_su:
-        probs.append(f'sequence pointer advances by {X.lin_str(su) if su is not None else None} bytes per motif row, expected seq.matrix().stride()')
-    if tu != want_tu:
-        probs.append(f'table pointer advances by {X.lin_str(tu) if tu is not None else None} bytes per motif row, expected pssm.stride()*{e_tab}')
-    # row pointer
-    rp = [l for l, v in Lr.carried.items() if isinstance(v, Ptr)]
-    if len(rp) != 1:
-        ctx.fail('R1.1', f, 'row pointer', f'reason=unrecognised-shape: {len(rp)} pointers carried by the row loop')
-        return 0
-    rp = rp[0]
-    ri = Lr.carried[rp]
-    rb = ri.base
-    ok_row = isinstance(rb, tuple) and rb[0] == 'slice' and rb[1][0] == 'call' and rb[1][1].endswith('index_mut') and is_param_call(rb[1][2][0], 'StripedScores::matrix_mut', 4) \
-        and norm(rb[1][2][1]) == ('k', 0)
-    if not ok_row:
-        probs.append(f'result pointer starts at {LN.show_base(rb)}: expected scores.matrix_mut()[0]')
-    ru = K.ptr_update(E, Hr, rp)
-    want_ru = {'lightmotif::dense::DenseMatrix::stride(lightmotif::scores::StripedScores::matrix_mut(arg4))': Fraction(e_out)}
-    if ru != want_ru:
-        probs.append(f'result pointer advances by {X.lin_str(ru) if ru is not None else None} bytes per row, expected data.stride()*{e_out}')
-    # stores
-    stores = [a for a in E.acc if a.kind == 'store' and isinstance(a.ptr, Ptr) and a.ptr.base == ('phi', Hr, rp) and isinstance(a.value, Vec)]
+    for k in seq_keys:
+        i_ = info[k]
+        r0 = i_['row0']
+        if isinstance(r0, tuple) and r0 and r0[0] == 'fld' and str(r0[2]) == '1':      # (k, i) of rows.enumerate(): i is the range element
+            r0 = r0[1]
+        if not LN.is_elem(r0, Hr):
+            probs.append(f'sequence pointer starts at row {X.show(i_["row0"], 60) if isinstance(i_["row0"], tuple) else i_["row0"]}: expected seq.matrix()[i] with i the element of the `rows` range (not its position)')
+        if i_['steps'] != [(Hj, {S_SEQ: Fraction(1)})] or i_['extra_rows']:
+            probs.append(f'sequence pointer advances by {[(H_, X.lin_str(st)) for H_, st in i_["steps"]]} per motif row, expected seq.matrix().stride() in the motif loop only')
+    for k in tab_keys:
+        i_ = info[k]
+        if norm(i_['row0']) != ('k', 0):
+            probs.append(f'table pointer starts at row {X.show(i_["row0"], 40)}: expected pssm[0]')
+        if i_['steps'] != [(Hj, {S_TAB: Fraction(e_tab)})] or i_['extra_rows']:
+            probs.append(f'table pointer advances by {[(H_, X.lin_str(st)) for H_, st in i_["steps"]]} per motif row, expected pssm.stride()*{e_tab} in the motif loop only')
+    stores = [i_['acc'] for k, i_ in info.items() if is_out(i_) and i_['acc'].kind == 'store' and isinstance(i_['acc'].value, Vec)]
     if not stores:
-        ctx.fail('R1.1', f, 'result stores', 'reason=unrecognised-shape: no vector store through the result pointer')
+        ctx.fail('R1.1', f, 'result stores', 'reason=unrecognised-shape: no vector store through a pointer into scores.matrix_mut()')
         return 0
+    for a in stores:
+        i_ = info[a.ptr.key()]
+        if norm(i_['row0']) != ('k', 0):
+            probs.append(f'result pointer starts at row {X.show(i_["row0"], 40)}: expected scores.matrix_mut()[0]')
+        if i_['steps'] != [(Hr, {S_OUT: Fraction(e_out)})] or i_['extra_rows']:
+            probs.append(f'result pointer advances by {[(H_, X.lin_str(st)) for H_, st in i_["steps"]]}, expected data.stride()*{e_out} once per element of `rows`')
+
+    class _Off:            # the in-row byte offset of the sequence row pointer (was: offset of the carried pointer's initial value)
+        pass
+    si = _Off()
+    si.off = info[seq_keys[0]]['inrow']
+    ri = _Off()
+    ri.off = {}
+    tabp_keys = set(tab_keys)
     cols = []
     n_lanes = 0
     for a in stores:
-        S = a.ptr.off
+        S = info[a.ptr.key()]['inrow']
         for q in range(len(a.value) // e_out):
             n_lanes += 1
             t = lane(a.value, q, e_out)
@@ -130,8 +149,8 @@ def check_score_kernel(db, ctx, path, e_out, e_tab, want_op):
                 lk = K.as_lookup(u[1], E)
                 if lk:
                     tabkey, esz, sym, how = lk
-                    if tabkey != (('phi', Hj, tabp), '0'):
-                        probs.append(f'column {X.lin_str(col_store)}: table is read from {tabkey}, not from the current PSSM row pointer')
+                    if tabkey not in tabp_keys or info[tabkey]['inrow']:
+                        probs.append(f'column {X.lin_str(col_store)}: table is read from {tabkey}, not from the start of the current PSSM row')
                     if esz != e_tab:
                         probs.append(f'column {X.lin_str(col_store)}: table element size/scale {esz} != {e_tab}')
                     term = sym
@@ -141,9 +160,9 @@ def check_score_kernel(db, ctx, path, e_out, e_tab, want_op):
                 ini = Lk.carried.get(l)
                 if isinstance(ini, Vec) and lane(ini, q2, 4) == ('phiw', Hj, l, q2, 4):
                     ss = K.select_sum_lookup(E, Hk, l, q2)
-                    if ss and ss['iter'][0] == 'range' and norm(ss['iter'][1]) == ('k', 0) and common.is_usize_const(ss['iter'][2]):
-                        exp_key = (('phi', Hj, tabp), X.lin_str({X.canon(('elem', ss['iter'], Hk)): Fraction(4)}))
-                        if ss['tabkey'] != exp_key:
+                    if ss and ss['iter'][0] == 'range' and norm(ss['iter'][1]) == ('k', 0) and common.is_usize_const(ss['iter'][2], 'K'):
+                        tk = info.get(ss['tabkey'])
+                        if tk is None or not is_tab(tk) or tk['inrow'] != {X.canon(('elem', ss['iter'], Hk)): Fraction(4)}:
                             probs.append(f'column {X.lin_str(col_store)}: table element read from {ss["tabkey"]}, expected pssmptr + 4*k')
                         term = ss['sym']
                         how = 'Σ_k select(sym == k, T[k], 0) over k in 0..K'
@@ -154,10 +173,10 @@ def check_score_kernel(db, ctx, path, e_out, e_tab, want_op):
                 probs.append(f'column {X.lin_str(col_store)}: per-row term is not a table look-up by the sequence symbol ({str(u)[:100]})')
                 continue
             # symbol byte
-            if not (isinstance(term, tuple) and term[0] == 'ld' and term[1] == (('phi', Hj, seqp), '0')):
+            if not (isinstance(term, tuple) and term[0] == 'ld' and term[1] in seq_keys):
                 probs.append(f'column {X.lin_str(col_store)}: symbol is {str(term)[:80]}, not a byte of the current sequence row')
                 continue
-            col_sym = K.lin_add(si.off, {'': Fraction(term[2])})
+            col_sym = K.lin_add(info[term[1]]['inrow'], {'': Fraction(term[2])})
             if not K.lin_eq(col_store, col_sym):
                 probs.append(f'stored at column {X.lin_str(col_store)} but computed from sequence column {X.lin_str(col_sym)} (lane permutation is not the identity)')
             cols.append(X.lin_str(col_store))
@@ -171,17 +190,23 @@ def check_score_kernel(db, ctx, path, e_out, e_tab, want_op):
                 probs.append(f'stored columns {sorted(cols)[:6]}… do not cover 0..31 exactly once')
     else:
         L0 = E.loops[H0]
-        # offset = i * 16 for i in 0..C::Quotient
-        offs = X.canon(('elem', L0.iter, H0))
+        # the 16 lanes of a block are columns base + 0..15 where base is the block offset: either the element of
+        # `(0..C/16).map(|i| i * 16)` or `16 * block` with `block` the element of `0..C/16`
+        el0 = X.canon(('elem', L0.iter, H0))
+        want_map = sorted(X.lin_str({el0: Fraction(1), '': Fraction(i)}) if i else X.lin_str({el0: Fraction(1)}) for i in range(16))
+        want_cnt = sorted(X.lin_str({el0: Fraction(16), '': Fraction(i)}) if i else X.lin_str({el0: Fraction(16)}) for i in range(16))
         got = sorted(cols)
-        want = sorted(X.lin_str({offs: Fraction(1), '': Fraction(i)}) if i else X.lin_str({offs: Fraction(1)}) for i in range(16))
-        if got != want:
-            probs.append(f'block stores columns {got[:3]}…, expected offset+0..15')
         itv = L0.iter
         okmap = False
-        if itv[0] == 'iter' and isinstance(itv[1], tuple) and itv[1][0] == 'call' and itv[1][1].endswith('Iterator::map'):
+        if got == want_cnt:
+            okmap = itv[0] == 'range' and norm(itv[1]) == ('k', 0) and common.is_usize_const(itv[2], 'Q')
+            if not okmap:
+                probs.append('column blocks are 16*block but `block` does not range over 0..C/16')
+        elif got != want_map:
+            probs.append(f'block stores columns {got[:3]}…, expected offset+0..15')
+        elif itv[0] == 'iter' and isinstance(itv[1], tuple) and itv[1][0] == 'call' and itv[1][1].endswith('Iterator::map'):
             src, clo = itv[1][2]
-            if src[0] == 'agg' and norm(src[2][0]) == ('k', 0) and common.is_usize_const(src[2][1]) and clo[0] == 'agg' and clo[1][0] == 'closure':
+            if src[0] == 'agg' and norm(src[2][0]) == ('k', 0) and common.is_usize_const(src[2][1], 'Q') and clo[0] == 'agg' and clo[1][0] == 'closure':
                 cf = db.fns.get(clo[1][1])
                 ce = common.return_expr_single_path_allow(cf) if cf else None
                 if ce is not None:
@@ -189,7 +214,7 @@ def check_score_kernel(db, ctx, path, e_out, e_tab, want_op):
                     ks = {k: v for k, v in l.items() if k != ''}
                     if l.get('', 0) == 0 and list(ks.values()) == [16] or ('arg2' in ''.join(ks) and 'USIZE' in ''.join(ks)):
                         okmap = True
-        if not okmap:
+        if not okmap and not probs:
             probs.append('column blocks are not offset = 16*i for i in 0..C/16')
     if probs:
         for p in probs[:6]:
@@ -258,7 +283,7 @@ def r12(db, ctx):
         c = f.callee_short(t) or ''
         if c.endswith('score_f32_rows_into_permute'):
             rels = G.relations(f, R, bi)
-            g = [r for r in rels if r[0] in ('le', 'lt') and common.is_usize_const(r[1]) and norm(r[2])[0] == 'k']
+            g = [r for r in rels if r[0] in ('le', 'lt') and common.is_usize_const(r[1], 'K') and norm(r[2])[0] == 'k']
             okg = g and ((g[0][0] == 'le' and norm(g[0][2])[1] <= 8) or (g[0][0] == 'lt' and norm(g[0][2])[1] <= 9))
             n += 1
             if okg:
